@@ -21,12 +21,15 @@ type printer, C12 JSON / JS printer, C18 diagnostics rendering, C19 loader).  He
 results are unreachable — or reachable exactly under the stated condition.  design-notes/C08.md ("Wave 3b") lists, per
 theorem, the panic sites of the Rust function that it covers.
 
-Side conditions of the generation theorems (all decidable, all necessary — each has a kernel-checked witness below):
+Side conditions of the generation theorems (all decidable; `ifaceOkB`, `skipIncludeB` and `noKeyClashB` each have a
+kernel-checked necessity witness below, none is given for `schemaOkB`):
 `schemaOkB S` (unique type names, no field named `__typename`, union members are object types — a small part of C03's
 `SchemaValid`) and `ifaceOkB S` (objects implement their interfaces), both established by the schema checker — which since
-fix 8cdbacf also establishes unique type names (`uniqueTypeNames_of_checked`; `schemaOk_of_checked`, `ifaceOk_of_checked`), `skipIncludeB S` (a user definition that shadows `@skip` /
-`@include` still requires `if` — the real code panics otherwise), `noKeyClashB` (one response key = one field, with or
-without sub-selection, recursively — the FieldsInSetCanMerge rule the checker lacks: the open finding).
+fix 8cdbacf also establishes unique type names (`uniqueTypeNames_of_checked`; `schemaOk_of_checked`, `ifaceOk_of_checked`;
+all three under `builtinTypeNamesDistinct`, `schemaOk_of_checked` also under `noReservedFieldsB`), `skipIncludeB S` (a user
+definition that shadows `@skip` / `@include` still requires `if` — the real code panics otherwise: open finding),
+`noKeyClashB` (one response key = one field, with or without sub-selection, recursively — the FieldsInSetCanMerge rule the
+checker lacks: open finding).
 -/
 namespace NitroVerif.C08
 open NitroVerif.Gql NitroVerif.Stages
@@ -131,10 +134,10 @@ open NitroVerif.CheckOp NitroVerif.Valid NitroVerif.OpTypes
     decidable side conditions (`schemaOkB`, `ifaceOkB`, `skipIncludeB` on the schema; `noKeyClashB` on the document,
     evaluated at any fragment-nesting bound `Dc` at which the document fits and any depth `d`), the model of
     `get_type_for_selection_set` returns a selection tree for EVERY definition of the document and ALL sufficiently
-    large fuels of the model: none of the 17 `expect("Type system error")` / `panic!("Type system error")` sites of
-    type_printer.rs and selection_set_visitor.rs, neither of the two merge panics of deep_merge.rs ("Cannot merge
-    fields of different types", "Cannot merge selection trees of different types") is reached, and neither fuel runs
-    out.  (The fuels are artefacts of the model; that its own `fuelFor` / `mfuelFor` are among the sufficient ones is
+    large fuels of the model: none of the 13 `expect("Type system error")` / `panic!("Type system error")` sites of
+    type_printer.rs (12) and selection_set_visitor.rs (1), neither of the two merge panics of deep_merge.rs ("Cannot
+    merge fields of different types", "Cannot merge selection trees of different types") is reached (the other 2 of the
+    17 sites of operation_type_printer/ are constant), and neither fuel runs out.  (The fuels are artefacts of the model; that its own `fuelFor` / `mfuelFor` are among the sufficient ones is
     NOT claimed — see the OPEN block.) -/
 theorem generate_total_partial (S : Schema) (D : Doc) (hS : schemaOkB S = true) (hI : ifaceOkB S = true)
     (hSI : skipIncludeB S = true) (h : checkOp S D = []) (Dc d : Nat) (hK : noKeyClashB S D Dc d = true) :
@@ -205,8 +208,8 @@ example : schemaOkB wSchema = true ∧ SchemaValid wSchema ∧ ifaceOkB wSchema 
     wDoc.all (fun x => match resultTree wSchema wDoc x with | some (.ok _) => true | _ => false) = true := by
   decide +kernel
 
-/-- `query Q { n: a { x } n: f }` — the open finding (known-findings: `O:panic:print_types_for_operation_document:…
-    deep_merge.rs:…Cannot-merge-fields-of-different-types`) -/
+/-- `query Q { n: a { x } n: f }` — the open finding (known-findings: `O:panic:generate:leaf-object-key-clash`; code
+    site deep_merge.rs, "Cannot merge fields of different types") -/
 def clashDoc : Doc := [
   .op { kind := .query, name := some ("Q", {}),
         sel := [.field (some ("n", {})) "a" {} [] [] (some [.field none "x" {} [] [] none]),
@@ -263,7 +266,8 @@ def shadowSchema : Schema := ⟨[
 def shadowDoc : Doc := [
   .op { kind := .query, name := some ("Q", {}), sel := [.field none "a" {} [] [{ name := "skip" }] none] }]
 
-/-- **New finding (real code panics: type_printer.rs `check_skip_directive`, `expect("Type system error")`).**
+/-- **Open finding, found by this proof (known-findings: `O:panic:generate:shadowed-builtin-directive:skip` / `:include`;
+    real code panics: type_printer.rs `check_skip_directive`, `expect("Type system error")`).**
     A schema that redefines `@skip` without a required `if` argument: `query Q { a @skip }` passes the operation check
     (the shadowing definition takes no arguments) and the printer, which interprets `@skip` by NAME, panics looking for
     `if`.  All other side conditions hold; `skipIncludeB` is exactly what fails.  Nothing reports the repeated directive
@@ -544,9 +548,15 @@ OPEN — carried by K/O only (stated, not proved), after this file:
   `@include` stays allowed after fix 8cdbacf: `generate_shadowed_skip_counterexample`), and `builtinTypeNamesDistinct`
   (about the constant list `generate_builtins()` = Int, Float, String, Boolean, ID; the K stream of C05 passes it as
   data). "Unique type names across kinds" is no longer among them: `uniqueTypeNames_of_checked`.
+* the other hypotheses nothing here discharges: `noKeyClashB` on the document (the checker has no FieldsInSetCanMerge
+  rule: `generate_total_counterexample`, open finding); `EmitTotal` in `loader_total` / `loader_step_total` (parser, path
+  resolver and emitter are abstract parameters there; the loader does not run the checker); file indices inside the store
+  in `render_error_total` (C18).
 * `parse_config`, plugin hosts, the file system and the CLI process (C18's assumptions) have no theorem here, and their
   panic sites (cli/src/{main,generate,schema_loader,plugin_host}.rs, config-file/src/{node,execute}.rs, plugin/src,
-  async-runtime/src, utils/src/relative_path.rs — 27 sites) are outside `translate/stage_sites.py`.
+  async-runtime/src, utils/src/relative_path.rs) are outside `translate/stage_sites.py`: O stream only (c08.rs runs
+  `parse_config` in process and the built CLI binary on configuration × file-set × plugin rows, judged by exit status
+  and `panicked at`).
 -/
 
 end NitroVerif.C08
